@@ -326,6 +326,12 @@ def record(chunk):
             e['path'] = 'formula-reuse'
         else:
             res, stored, text = observe(e, e['path'])
+        if res.get('t') == 'float':
+            try:        # cancellation noise of a floating-point sum whose exact value is 0 (cell values are >= 1e-3 in magnitude)
+                if abs(float(res['v'])) < 1e-12:
+                    res = {'t': 'num', 'n': 0, 'd': 1}
+            except ValueError:
+                pass
         e = dict(e, res=res)
         if text:
             e['formula'] = [ord(c) for c in text]
